@@ -5,9 +5,10 @@ real function on a small corpus of concrete ports / events / parameters built wi
 failing input for the obligation of that function (input: {"function": name[, "case": label]}).
 """
 import itertools
+import os
 import sys
 
-sys.path.insert(0, '/verif/native')
+sys.path.insert(0, os.path.dirname(os.path.abspath(__file__)))
 import mkmodel as M  # noqa: E402
 
 M.assert_tree()
